@@ -413,3 +413,35 @@ func BadCachedPoolReturn(r io.Reader) []byte {
 	n, _ := r.Read(*buf)
 	return (*buf)[:n]
 }
+
+// ---- a buffer is given back at most once (escape rule is silent on these; see the release rule in the fixture callback)
+
+func GoodOnceExplicitEveryExit(r io.Reader) (int, error) {
+	buf := pool.Get().(*[]byte)
+	n, err := r.Read(*buf)
+	if err != nil {
+		pool.Put(buf)
+		return 0, err
+	}
+	pool.Put(buf)
+	return n, nil
+}
+
+func BadTwiceDeferAndExplicit(r io.Reader) (int, error) {
+	buf := pool.Get().(*[]byte)
+	defer pool.Put(buf)
+	n, err := r.Read(*buf)
+	if err != nil {
+		pool.Put(buf)
+		return 0, err
+	}
+	return n, nil
+}
+
+func BadTwiceHelperAndClosure(r io.Reader) int {
+	buf := getBuf()
+	defer func() { pool.Put(buf) }()
+	n, _ := r.Read(*buf)
+	putBuf(buf)
+	return n
+}
